@@ -28,6 +28,7 @@ type Ctx struct {
 	hold           *holderTypes
 	wparams        map[*ssa.Function]map[int]bool
 	transient      map[*types.Named]bool
+	done           map[string]bool
 	denomOrd       map[string]int
 	maccVar        string
 	claimStepsDone bool
@@ -693,6 +694,8 @@ func lostUpdates(c *Ctx, m string) int {
 				"field "+lu.Field+" of the local copy "+lu.Alloc.Comment+" is assigned and the copy is never read afterwards")
 		}
 	}
+	staleElementPointers(c, fs)
+	stalePointerControl(c)
 	if bad == 0 {
 		r.OK("A3.lost-update", m+"|none", "", fmt.Sprintf("no dropped update to a local record copy in the %d functions of %s on transaction, block and genesis paths", len(fs), m))
 	}
